@@ -46,6 +46,8 @@ def encoding_errors(tree, bitof, nodes):
     reachable nodes (from the caller's own BFS)."""
     errs = []
     exp, full = expected_masks(tree, bitof)
+    if full == 0:
+        return []  # a tree without any taxon: nothing to encode (the library leaves tree_leafset_bitmask unset)
     enc = tree.bipartition_encoding
     if not isinstance(enc, list):
         return ["bipartition_encoding is %r, not a list" % (type(enc).__name__,)]
